@@ -29,6 +29,7 @@ type Ev struct {
 	Sent  int    `json:"sent"`  // folded call.signal: 1 delivered, 0 dropped, -1 no signal
 	Calls []int  `json:"calls"` // event specific list (swept calls ...)
 	S     int    `json:"s"`     // stream id (0: none)
+	M     int    `json:"m"`     // message number within a stream (0: none)
 	raw   interface{}
 	sub   interface{}
 	rawA  uint64
